@@ -590,10 +590,35 @@ fn walk(fs: &OverlayFs, blocks: &Blocks, names: &[String]) -> Value {
 // ------------------------------------------------------------------------------------------------
 // operations
 
+/// a handle kept open across operations: (inode, handle, open flags, path at open time)
+#[derive(Clone)]
+struct Slot {
+    ino: u64,
+    handle: u64,
+    flags: u32,
+    path: Vec<String>,
+}
+
 struct Exec<'a> {
     fs: &'a OverlayFs,
     ctx: Context,
     looked: Vec<u64>,
+    slots: &'a mut Vec<Option<Slot>>,
+}
+
+fn open_flags(op: &Value) -> i32 {
+    let mut f = match op["acc"].as_str().unwrap_or("r") {
+        "w" => libc::O_WRONLY,
+        "rw" => libc::O_RDWR,
+        _ => libc::O_RDONLY,
+    };
+    if op["trunc"].as_bool().unwrap_or(false) {
+        f |= libc::O_TRUNC;
+    }
+    if op["app"].as_bool().unwrap_or(false) {
+        f |= libc::O_APPEND;
+    }
+    f
 }
 
 impl<'a> Exec<'a> {
@@ -730,6 +755,79 @@ impl<'a> Exec<'a> {
                 let _ = self.fs.release(&self.ctx, ino, flags as u32, h, true, false, None);
                 res
             }
+            "open" => {
+                // OPEN with a full flag word; with "keep": the handle (and the inode reference) stays in a slot
+                let ino = self.resolve(&p)?;
+                self.regular_or_dirlike(ino)?;
+                let keep = op["keep"].as_u64().map(|k| k as usize);
+                if let Some(k) = keep {
+                    if k >= self.slots.len() || self.slots[k].is_some() {
+                        return Err(-7);
+                    }
+                }
+                let flags = open_flags(op) as u32;
+                let (h, _, _) = self.fs.open(&self.ctx, ino, flags, 0).map_err(e2n)?;
+                let h = h.unwrap_or(0);
+                match keep {
+                    Some(k) => {
+                        // the client keeps its reference to the inode while the file is open
+                        if let Some(pos) = self.looked.iter().rposition(|x| *x == ino) {
+                            self.looked.remove(pos);
+                        }
+                        self.slots[k] = Some(Slot { ino, handle: h, flags, path: p.clone() });
+                    }
+                    None => {
+                        let _ = self.fs.release(&self.ctx, ino, flags, h, true, false, None);
+                    }
+                }
+                Ok(())
+            }
+            "close" | "hsetattr" | "hwrite" | "hprobe" => {
+                let k = op["slot"].as_u64().unwrap_or(0) as usize;
+                let sl = match self.slots.get(k).cloned().flatten() {
+                    Some(s) => s,
+                    None => return Err(-7),
+                };
+                match kind {
+                    "close" => {
+                        let r = self.fs.release(&self.ctx, sl.ino, sl.flags, sl.handle, true, false, None).map_err(e2n);
+                        self.slots[k] = None;
+                        self.looked.push(sl.ino);
+                        r.or(Ok(()))
+                    }
+                    "hsetattr" => {
+                        let mut st: stat64 = unsafe { std::mem::zeroed() };
+                        let valid = if op["what"].as_str() == Some("size") {
+                            st.st_size = (op["len"].as_u64().unwrap_or(0) * blocks.b as u64) as i64;
+                            SetattrValid::SIZE
+                        } else {
+                            st.st_mode = mode;
+                            SetattrValid::MODE
+                        };
+                        self.fs.setattr(&self.ctx, sl.ino, st, Some(sl.handle), valid).map(|_| ()).map_err(e2n)
+                    }
+                    "hwrite" => {
+                        let data = blocks.bytes(&parse_runs(&op["c"]));
+                        let off = op["off"].as_u64().unwrap_or(0) * blocks.b as u64;
+                        let mut src = memfd();
+                        src.write_all(&data).unwrap();
+                        src.seek(SeekFrom::Start(0)).unwrap();
+                        match self.fs.write(&self.ctx, sl.ino, sl.handle, &mut src, data.len() as u32, off, None, false, sl.flags, 0) {
+                            Ok(n) if n == data.len() => Ok(()),
+                            Ok(_) => Err(-3),
+                            Err(e) => Err(errno_of(&e)),
+                        }
+                    }
+                    _ => {
+                        // exercise GETATTR / READ / FSYNC with the handle; results are not judged
+                        let _ = self.fs.getattr(&self.ctx, sl.ino, Some(sl.handle));
+                        let mut tmp = memfd();
+                        let _ = self.fs.read(&self.ctx, sl.ino, sl.handle, &mut tmp, 4096, 0, None, sl.flags);
+                        let _ = self.fs.fsync(&self.ctx, sl.ino, false, sl.handle);
+                        Ok(())
+                    }
+                }
+            }
             "truncate" => {
                 let ino = self.resolve(&p)?;
                 self.regular_or_dirlike(ino)?;
@@ -758,9 +856,9 @@ impl<'a> Exec<'a> {
     }
 }
 
-fn apply(fs: &OverlayFs, op: &Value, blocks: &mut Blocks) -> i64 {
+fn apply(fs: &OverlayFs, op: &Value, blocks: &mut Blocks, slots: &mut Vec<Option<Slot>>) -> i64 {
     let r = catch_unwind(AssertUnwindSafe(|| {
-        let mut ex = Exec { fs, ctx: Context::default(), looked: Vec::new() };
+        let mut ex = Exec { fs, ctx: Context::default(), looked: Vec::new(), slots };
         let r = ex.run(op, blocks);
         ex.forget_all();
         r
@@ -783,6 +881,7 @@ struct Scn {
     blocks: Blocks,
     names: Vec<String>,
     fs: Option<OverlayFs>,
+    slots: Vec<Option<Slot>>,
 }
 
 impl Scn {
@@ -819,7 +918,7 @@ impl Scn {
         let up_rows = upper.as_ref().map(|u| host_rows(u, &blocks, true)).unwrap_or_default();
         let low_rows: Vec<Value> = lowers.iter().map(|l| Value::Array(host_rows(l, &blocks, true))).collect();
         tr.emit(&json!({"e":"Layers","seg":seg,"upper":up_rows,"lowers":low_rows}));
-        let mut s = Scn { seg, base, upper, lowers, blocks, names, fs: None };
+        let mut s = Scn { seg, base, upper, lowers, blocks, names, fs: None, slots: vec![None, None, None] };
         match catch_unwind(AssertUnwindSafe(|| build_overlay(s.upper.as_deref(), &s.lowers, &s.base.join("work")))) {
             Ok(Ok(fs)) => s.fs = Some(fs),
             Ok(Err(e)) => tr.emit(&json!({"e":"BuildError","seg":seg,"st":errno_of(&e),"msg":e.to_string()})),
@@ -850,11 +949,16 @@ impl Scn {
     }
 
     fn step(&mut self, op: &Value, tr: &mut Trace) -> Value {
+        // operations through a kept handle are logged with the path the handle was opened on
+        let slot_path = op["slot"].as_u64().and_then(|k| self.slots.get(k as usize).cloned().flatten()).map(|s| s.path);
         let st = match &self.fs {
-            Some(fs) => apply(fs, op, &mut self.blocks),
+            Some(fs) => apply(fs, op, &mut self.blocks, &mut self.slots),
             None => -5,
         };
         let mut ev = op.clone();
+        if op["p"].is_null() {
+            ev["p"] = json!(slot_path.unwrap_or_default());
+        }
         if !op["c"].is_null() {
             // contents always cross the log as runs
             ev["c"] = Value::Array(parse_runs(&op["c"]).into_iter().map(|(s, i, n)| json!([s, i, n])).collect());
@@ -972,6 +1076,24 @@ impl Gen {
                     _ => json!({"op":"setxattr","p":p,"n":"user.j","v":"big"}),
                 };
             }
+        }
+        // OPEN flag words beyond the access mode, and handles kept open across later operations
+        if self.rng.chance(1, 6) {
+            let k = self.rng.below(3);
+            let f = pick_row(self, &files);
+            let fp = match f {
+                Some(p) if !self.rng.chance(1, 10) => p,
+                _ => self.rand_path(),
+            };
+            let acc = *self.rng.pick(&["r", "r", "w", "rw"]);
+            return match self.rng.below(10) {
+                0 | 1 => json!({"op":"open","p":fp,"acc":acc,"trunc":self.rng.chance(1,2),"app":self.rng.chance(1,3)}),
+                2 | 3 | 4 => json!({"op":"open","p":fp,"acc":acc,"trunc":false,"app":self.rng.chance(1,4),"keep":k}),
+                5 | 6 => json!({"op":"hsetattr","slot":k,"what":"mode","m":*self.rng.pick(&FMODES)}),
+                7 => json!({"op":"hwrite","slot":k,"off":self.rng.below(3),"c":[[self.fresh("h"), 0, 1]]}),
+                8 => json!({"op":"hprobe","slot":k}),
+                _ => if self.rng.chance(1, 2) { json!({"op":"close","slot":k}) } else { json!({"op":"hsetattr","slot":k,"what":"size","len":self.rng.below(4)}) },
+            };
         }
         let r = self.rng.below(100);
         let or_rand = |g: &mut Gen, v: Option<Vec<String>>| -> Vec<String> {
@@ -1098,6 +1220,38 @@ fn stacks(seed: u64) -> Vec<Value> {
                             "layers": [[], lower.clone()], "ops": ops}));
         }
     }
+    // OPEN flag words on lower-only (a), upper-only (b) and shadowing (c) files
+    let fl = |n: &str, l: usize| json!({"p":[n],"t":"file","m":0o644,"c":[[format!("O{}{}", n, l), 0, 2]]});
+    let combos: [(&str, bool, bool); 6] = [("r", true, false), ("r", false, true), ("w", true, false), ("w", false, true), ("rw", false, false), ("rw", true, true)];
+    for (i, (acc, trunc, app)) in combos.iter().enumerate() {
+        let ops: Vec<Value> = ["a", "b", "c"].iter().map(|n| json!({"op":"open","p":[n],"acc":acc,"trunc":trunc,"app":app})).collect();
+        out.push(json!({"id": format!("open{}", i), "B": 16, "upper": true, "names": ["a","b","c"], "depth": 3,
+                        "layers": [[fl("b", 0), fl("c", 0)], [fl("a", 1), fl("c", 1)]], "ops": ops}));
+        out.push(json!({"id": format!("open{}nu", i), "B": 16, "upper": false, "names": ["a","b","c"], "depth": 3,
+                        "layers": [[fl("a", 1), fl("c", 1)]], "ops": [{"op":"open","p":["a"],"acc":acc,"trunc":trunc,"app":app}]}));
+    }
+    // handles kept across a copy-up of their file
+    let hs: Vec<Vec<Value>> = vec![
+        vec![json!({"op":"open","p":["a"],"acc":"r","trunc":false,"app":false,"keep":0}), json!({"op":"chmod","p":["a"],"m":0o600}),
+             json!({"op":"hsetattr","slot":0,"what":"mode","m":0o640}), json!({"op":"hprobe","slot":0}), json!({"op":"close","slot":0})],
+        vec![json!({"op":"open","p":["a"],"acc":"r","trunc":false,"app":false,"keep":1}), json!({"op":"write","p":["a"],"off":1,"c":[["hw", 0, 1]]}),
+             json!({"op":"hsetattr","slot":1,"what":"mode","m":0o604}), json!({"op":"hsetattr","slot":1,"what":"size","len":1}), json!({"op":"close","slot":1})],
+        vec![json!({"op":"open","p":["a"],"acc":"rw","trunc":false,"app":false,"keep":0}), json!({"op":"hwrite","slot":0,"off":0,"c":[["hx", 0, 1]]}),
+             json!({"op":"hsetattr","slot":0,"what":"mode","m":0o660}), json!({"op":"unlink","p":["a"]}), json!({"op":"hwrite","slot":0,"off":0,"c":[["hy", 0, 1]]}),
+             json!({"op":"close","slot":0})],
+        vec![json!({"op":"open","p":["b"],"acc":"r","trunc":false,"app":false,"keep":0}), json!({"op":"open","p":["a"],"acc":"w","trunc":false,"app":true,"keep":1}),
+             json!({"op":"hwrite","slot":1,"off":2,"c":[["hz", 0, 1]]}), json!({"op":"hsetattr","slot":0,"what":"mode","m":0o600}),
+             json!({"op":"hsetattr","slot":1,"what":"size","len":1}), json!({"op":"close","slot":0}), json!({"op":"close","slot":1})],
+        vec![json!({"op":"open","p":["c"],"acc":"r","trunc":false,"app":false,"keep":2}), json!({"op":"setxattr","p":["c"],"n":"user.j","v":"1"}),
+             json!({"op":"hsetattr","slot":2,"what":"mode","m":0o611}), json!({"op":"close","slot":2})],
+    ];
+    for (i, ops) in hs.into_iter().enumerate() {
+        out.push(json!({"id": format!("handle{}", i), "B": 16, "upper": true, "names": ["a","b","c"], "depth": 3,
+                        "layers": [[fl("b", 0)], [fl("a", 1), fl("c", 1)]], "ops": ops}));
+    }
+    out.push(json!({"id": "handle_nu", "B": 16, "upper": false, "names": ["a","b","c"], "depth": 3, "layers": [[fl("a", 1)]],
+                    "ops": [{"op":"open","p":["a"],"acc":"r","trunc":false,"app":false,"keep":0}, {"op":"hsetattr","slot":0,"what":"mode","m":0o600},
+                            {"op":"hwrite","slot":0,"off":0,"c":[["hn", 0, 1]]}, {"op":"close","slot":0}]}));
     out
 }
 
